@@ -189,7 +189,7 @@ def proj_rule(r, comments=True, literal=False):
     if t == R.PAGE_RULE:
         return ('page', _ws(r.selectorText).lower(), proj_style(r.style, comments, literal), proj_rules(r.cssRules, comments, literal))
     if t == R.MARGIN_RULE:
-        return ('margin', r.margin.lower(), proj_style(r.style, comments, literal))
+        return ('margin', (r.margin or '').lower(), proj_style(r.style, comments, literal))
     if t == R.FONT_FACE_RULE:
         return ('font-face', proj_style(r.style, comments, literal))
     if t == R.CHARSET_RULE:
